@@ -102,6 +102,7 @@ class Runner(object):
         self.handles = handles if kind != "memory" else 1
         self.stores = [make_store(kind, root, cap) for _ in range(self.handles)]
         self.nops = 0
+        self.rotation = "irregular"      # or "alternate": strict alternation of the handles
         self.store = self.stores[0]
         self.track_alive = track_alive
         self.refs: List[Any] = []
@@ -134,8 +135,8 @@ class Runner(object):
         out: Dict[str, Any] = {}
         self.nops += 1
         if self.handles > 1 and op != "reopen":
-            # a deterministic but irregular rotation
-            self.store = self.stores[(self.nops * 7 // 3) % self.handles]
+            # a deterministic but irregular rotation (or strict alternation)
+            self.store = self.stores[(self.nops if self.rotation == "alternate" else self.nops * 7 // 3) % self.handles]
         try:
             if op == "store":
                 self.store.store_blob(real_key(arg), value_of(arg, self.none_keys), None)
